@@ -55,6 +55,14 @@ def gen_branches(rng, n):
         if nm not in seen and b"\x00" not in nm:
             seen.add(nm)
             names.append(nm)
+    if n >= 2 and rng.random() < 0.4:
+        # two names with a common prefix continued by '/' and by a byte below it: byte order and
+        # component-wise order disagree on them
+        stem = rng.choice([b"refs/heads/release", b"v1.0", b"a", b""])
+        for nm in (stem + b"/" + rng.choice([b"1", b"x", b""]), stem + rng.choice([b"-", b".", b" ", b"+", b"\x01"]) + rng.choice([b"1", b"x", b""])):
+            if nm not in seen:
+                seen.add(nm)
+                names.append(nm)
     out = []
     for nm in names:
         r = rng.random()
